@@ -266,8 +266,53 @@ func (c *Conn) Write(b []byte) (int, error) {
 		c.n.w.Fault("write_after_peer_close_ok")
 		return c.wdone(b, accept, ferr)
 	}
-	// back-pressure
-	for out.cap >= 0 && out.queued > 0 && out.queued+accept > out.cap || (out.cap == 0 && out.queued > 0) {
+	// back-pressure: like a kernel send buffer, bytes are taken as room becomes available; a write
+	// deadline that expires in between leaves a partial write behind (n > 0 and a timeout error)
+	now := time.Now()
+	accepted := 0
+	for accepted < accept {
+		room := accept - accepted
+		switch {
+		case out.cap > 0:
+			if r := out.cap - out.queued; r < room {
+				room = r
+			}
+		case out.cap == 0:
+			if out.queued > 0 {
+				room = 0
+			}
+		}
+		if room > 0 {
+			data := append([]byte(nil), b[accepted:accepted+room]...)
+			accepted += room
+			out.total += int64(room)
+			if out.tap != nil {
+				out.tap(data)
+			}
+			if out.sink != nil && !out.stall && len(out.segs) == 0 {
+				out.sink(data)
+				continue
+			}
+			var segs []seg
+			if c.Plan.Shape != nil {
+				segs = c.Plan.Shape(data)
+			} else {
+				segs = []seg{{data: data}}
+			}
+			for _, sg := range segs {
+				if sg.at.IsZero() {
+					sg.at = now
+				}
+				// a stream never reorders: availability is monotone
+				if k := len(out.segs); k > 0 && sg.at.Before(out.segs[k-1].at) {
+					sg.at = out.segs[k-1].at
+				}
+				out.segs = append(out.segs, sg)
+				out.queued += len(sg.data)
+			}
+			sig(out.rwake)
+			continue
+		}
 		wdl := c.wdl
 		c.n.unlock()
 		var dc <-chan time.Time
@@ -275,7 +320,10 @@ func (c *Conn) Write(b []byte) (int, error) {
 			d := time.Until(wdl)
 			if d <= 0 {
 				c.n.w.Fault("write_deadline")
-				return c.wdone(b, 0, &net.OpError{Op: "write", Net: "sim", Err: timeoutErr{}})
+				if accepted > 0 {
+					c.n.w.Fault("partial_write_at_deadline")
+				}
+				return c.wdone(b, accepted, &net.OpError{Op: "write", Net: "sim", Err: timeoutErr{}})
 			}
 			t := time.NewTimer(d)
 			dc = t.C
@@ -293,40 +341,12 @@ func (c *Conn) Write(b []byte) (int, error) {
 		c.n.lock()
 		if c.closed {
 			c.n.unlock()
-			return c.wdone(b, 0, errClosed("write"))
+			return c.wdone(b, accepted, errClosed("write"))
 		}
 		if out.rgone || out.reset {
 			c.n.unlock()
-			return c.wdone(b, 0, &net.OpError{Op: "write", Net: "sim", Err: syscall.EPIPE})
+			return c.wdone(b, accepted, &net.OpError{Op: "write", Net: "sim", Err: syscall.EPIPE})
 		}
-	}
-	data := append([]byte(nil), b[:accept]...)
-	out.total += int64(accept)
-	if out.tap != nil {
-		out.tap(data)
-	}
-	if out.sink != nil && !out.stall && len(out.segs) == 0 {
-		out.sink(data)
-	} else {
-		now := time.Now()
-		var segs []seg
-		if c.Plan.Shape != nil {
-			segs = c.Plan.Shape(data)
-		} else {
-			segs = []seg{{data: data}}
-		}
-		for _, s := range segs {
-			if s.at.IsZero() {
-				s.at = now
-			}
-			// a stream never reorders: availability is monotone
-			if k := len(out.segs); k > 0 && s.at.Before(out.segs[k-1].at) {
-				s.at = out.segs[k-1].at
-			}
-			out.segs = append(out.segs, s)
-			out.queued += len(s.data)
-		}
-		sig(out.rwake)
 	}
 	c.n.unlock()
 	return c.wdone(b, accept, ferr)
